@@ -115,9 +115,34 @@ def run(pid, tier, seed, replay_path=None):
     # 5. verdict
     viol, known, nobs = rl.monitor(d, "RenderObs.tla", "obsmon", obsf, rl.RENDER_CONSTS, par=8, timeout=2400)
     bviol, _, nbobs = rl.monitor(d, "BatchObs.tla", "batchmon", bobsf, "", par=4, timeout=1200)
-    obs = rl.read_ndjson(obsf)
     bobs = rl.read_ndjson(bobsf)
     stalled = [o for o in bobs if o["stalled"] or o["note"]]
+    # one pass over the (possibly very large) observation file: statistics + the failing lines
+    want = {idx for idx, name in viol if name.startswith("C08_")}
+    nobs_lines, nontrivial, uninst_seen, flav = 0, 0, 0, {}
+    fmt = {k: 0 for k in ("crlf", "leadSep", "trailSep", "noEol", "doubledSep")}
+    sample_idx, samples, picked = None, [], {}
+    with open(obsf) as f:
+        total = sum(1 for _ in f)
+    sample_idx = set(rnd.sample(range(total), min(3, total)))
+    with open(obsf) as f:
+        for i, l in enumerate(f):
+            o = json.loads(l)
+            nobs_lines += 1
+            if o["obs"]["hooks"] or len(o["obs"]["manifest"]) > 1:
+                nontrivial += 1
+            if o["obs"]["uninst"]:
+                uninst_seen += 1
+            for fl in o["case"]["files"]:
+                for x in fl["docs"]:
+                    flav[x["c"]] = flav.get(x["c"], 0) + 1
+            for k in ("crlf", "leadSep", "trailSep", "noEol"):
+                fmt[k] += 1 if o["fmt"].get(k) else 0
+            fmt["doubledSep"] += 1 if o["fmt"].get("sep") == 1 else 0
+            if i in sample_idx:
+                samples.append(rl.describe_case(o))
+            if i in want:
+                picked[i] = o
 
     out_viol = []
     seen = set()
@@ -125,7 +150,7 @@ def run(pid, tier, seed, replay_path=None):
         if not name.startswith("C08_") or (idx, name) in seen:
             continue
         seen.add((idx, name))
-        o = obs[idx]
+        o = picked[idx]
         path = os.path.join(vdir, "%s_%s.json" % (name, o["id"]))
         json.dump({"family": "render", "seed": seed, "case": rl.case_line_of(o)}, open(path, "w"))
         out_viol.append((name, path, rl.describe_case(o)))
@@ -151,32 +176,24 @@ def run(pid, tier, seed, replay_path=None):
     for name, path, desc in reported:
         print("VIOLATION property=%s replay=%s check=%s case=%s" % (pid, path, name, desc))
 
-    nontrivial = sum(1 for o in obs if o["obs"]["hooks"] or len(o["obs"]["manifest"]) > 1)
-    flav = {}
-    for o in obs:
-        for f in o["case"]["files"]:
-            for x in f["docs"]:
-                flav[x["c"]] = flav.get(x["c"], 0) + 1
-    fmt = {k: sum(1 for o in obs if o["fmt"].get(k)) for k in ("crlf", "leadSep", "trailSep", "noEol")}
-    fmt["doubledSep"] = sum(1 for o in obs if o["fmt"].get("sep") == 1)
     cov = {
         "states": mc["distinct"] + mb["distinct"] + mg["distinct"],
         "transitions": mc["generated"] + mb["generated"] + mg["generated"],
         "traces_validated_against_impl": nobs + nbobs,
-        "samples": [rl.describe_case(obs[i]) for i in sorted(rnd.sample(range(len(obs)), min(3, len(obs))))] +
+        "samples": samples +
                    ["%s kinds=%s fail=%s completion order=%s" % (o["method"], o["kinds"], o["fail"], o["order"]) for o in bobs[-2:]],
         "exhaustive": True,
         "render_state_machine": {k: mc[k] for k in ("cfg", "generated", "distinct", "depth", "seconds")},
         "batch_model": {k: mb[k] for k in ("cfg", "generated", "distinct", "depth", "seconds")},
         "batch_model_without_wait_violates": sorted(rl.violated_invariants(mnw["out"])),
         "batch_completion_orders_exported": len(orders),
-        "partition_cases_enumerated_by_tlc": ncases, "partition_cases_observed": len(obs),
-        "uninstall_orders_observed": sum(1 for o in obs if o["obs"]["uninst"]),
+        "partition_cases_enumerated_by_tlc": ncases, "partition_cases_observed": nobs_lines,
+        "uninstall_orders_observed": uninst_seen,
         "document_flavours_drawn": flav, "spellings_drawn": fmt,
         "failing_observations_by_check": per,
         "batch_cases_replayed": len(bobs), "batch_cases_not_realised": len(stalled),
         "verdict_by": "TLA+ predicates (RenderObs.tla / BatchObs.tla via RenderBase.tla / BatchBase.tla) evaluated by TLC on every observation",
-        "evaluations": len(obs) + len(bobs), "distinct_nontrivial": nontrivial + sum(1 for o in bobs if len(set(o["kinds"])) > 1),
+        "evaluations": nobs_lines + len(bobs), "distinct_nontrivial": nontrivial + sum(1 for o in bobs if len(set(o["kinds"])) > 1),
         "rule": "partition cases: all document sequences of the bounded space (TLC-enumerated); non-trivial = a hook or >= 2 manifest "
                 "documents observed; batch cases: (kind-sorted list, TLC completion order, failing subset, Create|Delete); non-trivial = >= 2 kinds",
         "checker_cmd": "tlc MC_RenderGen.tla ; tlc MC_Render.tla -config MC_Part.cfg ; tlc MC_Batch.tla ; hv_render render|batch ; tlc RenderObs.tla ; tlc BatchObs.tla",
